@@ -1,6 +1,9 @@
 (* C15 -- robustness (partial): the arithmetic of the tokenizer / dispatcher / stream never goes wrong. *)
 From LolModel Require Import Machine Selectors.
 From LolProofs Require Import InlineAcyclic.
+From LolModel Require Import Base TreeBuilder.
+From LolProofs Require SimInv.
+From Coq Require Import List.
 From LolGen Require Import StateTable.
 From LolProofs Require Import Tiling TableFacts.
 From LolProps Require Import C01.
@@ -29,6 +32,16 @@ Proof. intro z. unfold wrap32. pose proof (Z.mod_pos_bound (z + 2147483648) 4294
 Theorem C15_inline_transitions_form_no_cycle : forallb (fun st => negb (on_inline_cycle st)) all_states = true.
 Proof. exact inline_transitions_form_no_cycle. Qed.
 
+(* The tree builder simulator's namespace stack is never empty: for every sequence of simulator calls that follows the request
+   protocol (start / end tag feedback, RequestLexeme answered by the lexeme callback) its top is current_ns and its bottom is Html,
+   so the debug_assert!(false, "Namespace stack should always have at least one item") of leave_ns is unreachable -- also through
+   the breakout path that leaves all directly nested foreign roots at once. *)
+Theorem C15_namespace_stack_never_empty : forall part strict evs s p,
+  SimInv.sim_run part (init_sim strict, None) evs = Some (s, p) ->
+  exists r, ns_stack s = cur_ns s :: r /\ last (ns_stack s) Html = Html.
+Proof. exact SimInv.namespace_stack_never_empty. Qed.
+
 Print Assumptions C15_no_offset_panic.
 Print Assumptions C15_wrap32_in_range.
 Print Assumptions C15_inline_transitions_form_no_cycle.
+Print Assumptions C15_namespace_stack_never_empty.
